@@ -1,55 +1,53 @@
 /-
-Model of compilation as a STATE TRANSFORMER on constraint objects (C11): `epigraph_substitution`
-rewrites the elementwise constraints' expressions in place; each constraint object remembers the
-nonlinear atoms that were replaced by their epigraph variables (`_epigraph_atoms`), and later
-compilations keep emitting those atoms' epigraph cones.  Core Lean only.
+Model of compilation as a STATE TRANSFORMER on constraint objects (C11), and of finite histories of
+compilations interleaved with the creation of unrelated Variables.
+
+`epigraph_substitution` works on a copy (`linearized_expr`) of every elementwise constraint's
+expression, so the state that later compilations read — the constraint's `expr` — is not changed by
+compiling.  (Before the repair of finding F2 the substitution was done in place and a second
+compilation lost the epigraph cones; the correspondence check compares the objects' serialised state
+after every compilation with `compileStep`'s post-state, so a return of that behaviour is caught.)
+Core Lean only.
 -/
 import SageoptModel.Model.Compile
 
 namespace Sageopt.Compile
 
-/-- a constraint object: its current `Con` state plus the atoms substituted by earlier compilations -/
-structure ECon where
-  con : Con
-  mem : List NlAtom
-  deriving Repr, BEq
+/-- one `compile_constrained_system` call on a list of constraint objects: output blocks and the
+    state of the objects afterwards -/
+def compileStep (cons : List Con) (dummy : Nat) : M (List CRow × List Cone × List Con) := do
+  let (rows, K) ← compileBlocks cons dummy
+  pure (rows, K, cons)
 
-def addAtom (acc : List NlAtom) (a : NlAtom) : List NlAtom := if acc.any (·.same a) then acc else acc ++ [a]
+/-- operations of a history over a fixed pool of constraint objects -/
+inductive Op where
+  | compile (idxs : List Nat)        -- compile the sub-list of objects with these indices, in this order
+  | unrelated (k : Nat)              -- create an unrelated Variable with k components
+  deriving Repr
 
-/-- dict of atoms in first-seen order: per constraint, first its remembered atoms, then the atoms still
-    present in its rows -/
-def collectAtomsMem (cons : List ECon) : List NlAtom :=
-  cons.foldl (fun acc e =>
-    let acc := e.mem.foldl addAtom acc
-    (elemRowsOf e.con).foldl (fun acc r => (rowAtoms r).foldl addAtom acc) acc) []
+structure World where
+  cons : List Con                    -- the constraint objects (their current state)
+  counter : Nat                      -- ScalarVariable counter (`curr_variable_count()`)
+  deriving Repr
 
-/-- atoms of the dict that occur in the rows of `c` (these are the ones recorded on `c`) -/
-def atomsIn (atoms : List NlAtom) (c : Con) : List NlAtom :=
-  atoms.filter fun a => (elemRowsOf c).any fun r => (rowAtoms r).any (·.same a)
+def pick (cons : List Con) (idxs : List Nat) : List Con := idxs.filterMap fun i => cons[i]?
 
-/-- `find_variables_from_constraints` lists each constraint's variables, which runs `remove_zeros()` on
-    its expressions (a no-op on expressions built by the arithmetic operators, which never keep a zero) -/
-def dropZeros : Con → Con
-  | .elem isEq rows => .elem isEq (rows.map fun r => { r with terms := r.terms.filter fun t => t.2 != 0 })
-  | c => c
+/-- write the post-state of the compiled objects back into the pool -/
+def writeBack (cons : List Con) (idxs : List Nat) (post : List Con) : List Con :=
+  (idxs.zip post).foldl (fun acc p => acc.set p.1 p.2) cons
 
-/-- one `compile_constrained_system` call on a list of constraint objects: output blocks and the new
-    state of the objects -/
-def compileStep (cons : List ECon) (dummy : Nat) : M (List CRow × List Cone × List ECon) := do
-  let elems := cons.filter fun e => isElem e.con
-  let setm := cons.filter fun e => !isElem e.con
-  let atoms := collectAtomsMem elems
-  let elems' := elems.map fun e => (substCon atoms e.con)
-  let e1 ← elems'.mapM (conRows dummy)
-  let e2 ← atoms.mapM fun a => do let (r, k) ← epiRows a dummy; pure (r, [k])
-  let e3 ← setm.mapM fun e => conRows dummy e.con
-  let all := e1 ++ e2 ++ e3
-  if (all.flatMap (·.1)).isEmpty then throw "ValueError: zero-size array to reduction operation maximum"
-  else
-    let cons' := cons.map fun e =>
-      if isElem e.con then
-        { con := dropZeros (substCon atoms e.con), mem := (atomsIn atoms e.con).foldl addAtom e.mem }
-      else e
-    pure (all.flatMap (·.1), all.flatMap (·.2), cons')
+def step (w : World) : Op → World × Option (M (List CRow × List Cone))
+  | .unrelated k => ({ w with counter := w.counter + k }, none)
+  | .compile idxs =>
+    match compileStep (pick w.cons idxs) (w.counter - 1) with
+    | .ok (rows, K, post) => ({ w with cons := writeBack w.cons idxs post }, some (.ok (rows, K)))
+    | .error m => (w, some (.error m))
+
+def run (w : World) : List Op → World × List (Option (M (List CRow × List Cone)))
+  | [] => (w, [])
+  | op :: ops =>
+    let (w', out) := step w op
+    let (w'', outs) := run w' ops
+    (w'', out :: outs)
 
 end Sageopt.Compile
